@@ -16,6 +16,7 @@ package main
 //   sil silence · half half a frame, then silence
 
 import (
+	"context"
 	"crypto/ecdsa"
 	"crypto/elliptic"
 	crand "crypto/rand"
@@ -27,7 +28,8 @@ import (
 	"io"
 	"math/big"
 	"net"
-	"context"
+	"os"
+	"path/filepath"
 	"strings"
 	"sync"
 	"sync/atomic"
@@ -43,7 +45,7 @@ const (
 	c14SetupWait  = 3 * time.Second
 	c14LongDl     = 2400 // ms: deadline of exchanges that must end promptly (class "prompt": ≤ half of it)
 	c14HolderDl   = 6 * time.Second
-	c14ShortDlMin = 220 // ms: deadline of exchanges that can only end with their context
+	c14ShortDlMin = 400 // ms: deadline of exchanges that can only end with their context
 )
 
 func c14query(role string, n int) []byte {
@@ -108,6 +110,23 @@ func c14waitTimeout(wg *sync.WaitGroup, d time.Duration) bool {
 	case <-time.After(d):
 		return false
 	}
+}
+
+// c14settle waits until the pair of counters read by f has not changed for 80 ms (at most 800 ms).
+// The servers count what they have ACCEPTED and READ; when an exchange ends with its context (silent
+// faults) its last query or connection may still be on its way to the server's goroutines, the more
+// so on a loaded machine. (When the server answers, closes or resets, it has counted before.)
+func c14settle(f func() (int, int)) (int, int) {
+	a, b := f()
+	stable := time.Now()
+	limit := stable.Add(800 * time.Millisecond)
+	for time.Since(stable) < 80*time.Millisecond && time.Now().Before(limit) {
+		time.Sleep(10 * time.Millisecond)
+		if a2, b2 := f(); a2 != a || b2 != b {
+			a, b, stable = a2, b2, time.Now()
+		}
+	}
+	return a, b
 }
 
 const c14Hard = 1500 * time.Millisecond // how long beyond deadline + slack the harness keeps waiting
@@ -219,9 +238,42 @@ func (b *c14blackhole) close() {
 
 var c14portCtr atomic.Uint32
 
-func init() { c14portCtr.Store(uint32(time.Now().UnixNano()>>12) % 20000) }
+// Several harness processes may run at the same time (checks running in parallel). Each one claims a
+// slice of the port range for its lifetime with an flock'ed file, so that a port one process regards
+// as closed is never opened by another.
+const (
+	c14portBase   = 10000
+	c14sliceSize  = 500
+	c14sliceCount = 40
+)
 
-func c14nextPort() int { return 10000 + int(c14portCtr.Add(1)%20000) }
+var c14sliceOnce sync.Once
+var c14slice int
+var c14sliceFile *os.File // kept open: the lock lives as long as the process
+
+func c14claimSlice() {
+	dir := filepath.Join(os.TempDir(), "mvharness-c14-ports")
+	os.MkdirAll(dir, 0o777)
+	start := int(time.Now().UnixNano()>>12) % c14sliceCount
+	for i := 0; i < c14sliceCount; i++ {
+		sl := (start + i) % c14sliceCount
+		f, err := os.OpenFile(filepath.Join(dir, fmt.Sprintf("%d.lock", sl)), os.O_CREATE|os.O_RDWR, 0o666)
+		if err != nil {
+			continue
+		}
+		if syscall.Flock(int(f.Fd()), syscall.LOCK_EX|syscall.LOCK_NB) == nil {
+			c14slice, c14sliceFile = sl, f
+			return
+		}
+		f.Close()
+	}
+	c14slice = start // every slice is taken: share one
+}
+
+func c14nextPort() int {
+	c14sliceOnce.Do(c14claimSlice)
+	return c14portBase + c14slice*c14sliceSize + int(c14portCtr.Add(1)%c14sliceSize)
+}
 
 func c14listenTCP(lc *net.ListenConfig) net.Listener {
 	if lc == nil {
@@ -291,7 +343,7 @@ type c14srv struct {
 
 	ln      net.Listener
 	tlsCfg  *tls.Config
-	rawMode string   // behaviour right after accept: "" | sil | gar | fin | rst
+	rawMode string // behaviour right after accept: "" | sil | gar | fin | rst
 	// behaviours for the successive victim queries that arrive on a connection which has carried a
 	// query before (a pooled connection) / on a new connection (a freshly dialled one)
 	pscript []string
@@ -304,6 +356,11 @@ type c14srv struct {
 	killHow         string
 	answerAfterKill bool
 	killedAt        time.Time
+	// idlefire scenario: replies are sent `delay` after the query; when the first delayed reply
+	// was sent; the connections that carried a victim query
+	delay        time.Duration
+	firstDelayed time.Time
+	victimConns  map[*c14sconn]bool
 
 	conns    []*c14sconn
 	accepts  int
@@ -355,8 +412,9 @@ func (s *c14srv) reset(sc *c14sconn) {
 }
 
 // the server has said all it will say on sc; the client is expected to close its side soon
+// (watchers.Add must have been called BEFORE the server did anything the client can react to:
+// otherwise the case may already be collecting its verdict, see leaks)
 func (s *c14srv) expectClientClose(sc *c14sconn, r io.Reader) {
-	s.watchers.Add(1)
 	go func() {
 		defer s.watchers.Done()
 		sc.raw.SetReadDeadline(time.Now().Add(c14LeakWait))
@@ -406,11 +464,13 @@ func (s *c14srv) kill(sc *c14sconn, how string, id uint16) {
 	s.markKilled(sc)
 	switch how {
 	case "fin":
+		s.watchers.Add(1)
 		s.closeWrite(sc)
 		s.expectClientClose(sc, sc.c)
 	case "rst":
 		s.reset(sc)
 	case "gar":
+		s.watchers.Add(1)
 		s.write(sc, c14frame(c14garbage(id)))
 		s.expectClientClose(sc, sc.c)
 	}
@@ -421,6 +481,7 @@ func (s *c14srv) serve(sc *c14sconn, mode string) {
 	case "sil":
 		return // keep it open, never read
 	case "gar":
+		s.watchers.Add(1)
 		sc.raw.Write([]byte("\x00\x14this is not dns or tls\r\n\r\n"))
 		s.expectClientClose(sc, sc.raw)
 		return
@@ -464,6 +525,10 @@ func (s *c14srv) serve(sc *c14sconn, mode string) {
 		switch role {
 		case "victim":
 			beh = "ok"
+			if s.victimConns == nil {
+				s.victimConns = map[*c14sconn]bool{}
+			}
+			s.victimConns[sc] = true
 			if firstOnConn {
 				if s.fi < len(s.fscript) {
 					beh = s.fscript[s.fi]
@@ -492,6 +557,19 @@ func (s *c14srv) serve(sc *c14sconn, mode string) {
 		s.mu.Unlock()
 		switch beh {
 		case "ok":
+			if s.delay > 0 {
+				rb := c14frame(c14reply(q))
+				go func() {
+					time.Sleep(s.delay)
+					s.mu.Lock()
+					if s.firstDelayed.IsZero() {
+						s.firstDelayed = time.Now()
+					}
+					s.mu.Unlock()
+					s.write(sc, rb)
+				}()
+				continue
+			}
 			s.write(sc, c14frame(c14reply(q)))
 		case "half":
 			f := c14frame(c14reply(q))
